@@ -403,10 +403,63 @@ class C15Thorough(C15Quick):
     ROWS = ['E', 'A', 'A2', 'B', 'I7', 'R', 'RD', 'X']
 
 
+SLICES = [(None, None, None), (0, 1, None), (1, None, None), (None, None, -1), (0, 2, None)]
+PAIR_OPS = [('append', 'A'), ('append', 'B'), ('append', 'I7'), ('append', 'R'), ('insert', 0, 'A2'), ('insert', 0, 'B'), ('delitem', 0), ('delitem', -1),
+            ('setitem', 0, 'B'), ('setitem', 0, 'E'), ('extend', ['B', 'I7']), ('reverse',), ('clear',), ('pop_last',)]
+
+
+def aliasing_task(factory, states):
+    """Parent / derived-grid independence: after g2 = g[a:b], one more operation on either grid must leave
+    the OTHER grid's rows and id lookups exactly as its own model says (a shared index would leak)."""
+    spec = factory()
+    st = Stats()
+    for root, hist in states:
+        hist = [tuple(o) for o in hist]
+        for warm in (False, True):
+            for sl in SLICES:
+                for side in ('child', 'parent'):
+                    for op in PAIR_OPS:
+                        g, model = H.build(spec, root, hist)
+                        if warm:
+                            g.get('a')
+                        s_ = slice(*sl)
+                        try:
+                            child = g[s_]
+                        except Exception:  # noqa
+                            continue
+                        cmodel = model[s_]
+                        tgt, tmodel = (child, cmodel) if side == 'child' else (g, model)
+                        if op[0] in ('append', 'insert', 'extend') and len(tmodel) >= MAXLEN + 1:
+                            continue
+                        scratch = Stats()
+                        ok = spec.step(tgt, tmodel, op, scratch, (['aliasing'], [op]))
+                        st.count('transitions')
+                        st.count('executions')
+                        if ok is False or scratch.failures:
+                            continue        # the operation itself is judged by the BFS
+                        other, omodel = (g, model) if side == 'child' else (child, cmodel)
+                        sub = Stats()
+                        spec.check(other, omodel, sub, (['aliasing'], []))
+                        for f in sub.failures:
+                            st.fail('operation-on-%s-grid-changed-the-%s-grid' % ('derived' if side == 'child' else 'source', 'source' if side == 'child' else 'derived'),
+                                    {'op': op[0], 'index_built_before_slice': warm, 'slice': str(sl), 'what': f['symptom']},
+                                    {'aliasing': True, 'root': root, 'history': [list(o) for o in hist], 'warm': warm, 'slice': list(sl), 'side': side, 'op': list(op)},
+                                    f['detail'])
+                            break
+        st.count('states')
+    return st
+
+
 def run(ctx, prop):
     factory = {('C14', True): C14Quick, ('C14', False): C14Thorough, ('C15', True): C15Quick, ('C15', False): C15Thorough}[(prop, ctx.quick)]
     depth = 4 if ctx.quick else 6
-    st, info = H.bfs(factory, depth=depth, seed=ctx.seed, jobs=ctx.jobs)
+    states = [(['fresh'], [])]
+    st, info = H.bfs(factory, depth=depth, seed=ctx.seed, jobs=ctx.jobs, collect=states)
+    pair_states = [(r, h) for r, h in states if r[0] == 'fresh' and len(h) <= (2 if ctx.quick else 3)]
+    from mc.explore import pmap, chunks
+    for part in pmap(aliasing_task, [(factory, c) for c in chunks(pair_states, ctx.jobs * 2)], ctx.jobs):
+        st.merge(part)
+    info['aliasing_states'] = len(pair_states)
     st.outcomes |= set(list(st.inputs)[:1000])
     spec = factory()
     return {
@@ -414,7 +467,7 @@ def run(ctx, prop):
         'rule': 'explicit-state BFS to depth %d: every operation of the alphabet (append, insert at -3..3, +=, extend incl. generators and '
                 'lists with a non-dict in the middle, item assignment, del index/slice, pop, remove, reverse, clear, lookup by id as a '
                 'state-changing read) applied to every reachable state of a real Grid of at most %d rows, and to grids derived from reached '
-                'states by slicing and filtering; lock-step with a Python list of the same row objects; state = (row labels in order, '
+                'states by slicing and filtering; lock-step with a Python list of the same row objects; plus, for every state reached within 2 (3) steps, every (slice, one further operation on the source or on the derived grid) pair with the other grid re-checked against its own model; state = (row labels in order, '
                 'hidden id-index content incl. stale entries); distinct = distinct canonical states' % (depth, MAXLEN),
         'coverage': {'bounds': {'rows': spec.ROWS, 'non_dict_rows': spec.NONDICT, 'max_rows': MAXLEN, 'depth': depth,
                                 'lookup_keys': spec.lookup_keys(), 'info': info}},
@@ -425,6 +478,12 @@ def run(ctx, prop):
 
 
 def replay(case, st, prop):
+    if case.get('aliasing'):
+        sub = aliasing_task(C14Thorough if prop == 'C14' else C15Thorough, [(case['root'], case['history'])])
+        for f in sub.failures:
+            if f['case']['op'] == case['op'] and f['case']['slice'] == case['slice'] and f['case']['side'] == case['side'] and f['case']['warm'] == case['warm']:
+                st.fail(f['symptom'], f['sig'], f['case'], f['detail'])
+        return
     spec = C14Thorough() if prop == 'C14' else C15Thorough()
     root = case['root']
     hist = [tuple(o) for o in case['history']]
